@@ -10,6 +10,21 @@ import z3
 from .core import STATS, Inconclusive
 
 
+_CONST_CACHE = {}
+
+
+def _consts_of(t):
+  i = t.get_id()
+  hit = _CONST_CACHE.get(i)
+  if hit is not None and hit[0].eq(t):
+    return hit[1]
+  r = frozenset(_consts(t, set(), set()))
+  if len(_CONST_CACHE) > 200000:
+    _CONST_CACHE.clear()
+  _CONST_CACHE[i] = (t, r)
+  return r
+
+
 def _consts(t, acc, seen):
   stack = [t]
   while stack:
@@ -69,8 +84,8 @@ def prove(hyps, goal, timeout_ms=60000, tactic=None):
     STATS['by_normaliser'] = STATS.get('by_normaliser', 0) + 1
     return 'unsat', None
   if len(hyps) > 3:
-    gc = _consts(goal, set(), set())
-    sub = [h for h in hyps if _consts(h, set(), set()) & gc]
+    gc = _consts_of(goal)
+    sub = [h for h in hyps if _consts_of(h) & gc]
     if len(sub) < len(hyps):
       r, _ = _check(sub, goal, min(timeout_ms, 8000), tactic)
       if r == 'unsat':
